@@ -152,7 +152,7 @@ def run(P, tier="quick"):
                 if nz[0] != "pair":
                     subj, op, k = nz
                     stxt = subj.text()
-                    if k == 0 and "frequenc" in stxt and (subj.ctype or "").replace("const ", "") == "double":
+                    if k == 0 and ("frequenc" in stxt or "frequenc" in low) and (subj.ctype or "").replace("const ", "") == "double":
                         nfreq += 1
                         i = idx[f.name] = idx.get(f.name, 0) + 1
                         key = "R37|%s|%s|freq-nonneg#%d" % (f.file, f.name, i)
